@@ -55,6 +55,8 @@ type sharedT struct {
 	keys [4]curve.CompressedEdwardsY
 	exps [4]*ed25519.ExpandedPublicKey
 	xsk  []byte
+	xpriv x25519.PrivateKey // deliberately NOT clamped: read-only methods must not normalise it in place
+	xpeer x25519.PublicKey
 }
 
 func work(id int, shared *sharedT, rounds int) string {
@@ -136,6 +138,9 @@ func work(id int, shared *sharedT, rounds int) string {
 		x, _ := x25519.X25519(seed, x25519.Basepoint)
 		y, _ := x25519.X25519(shared.xsk, x)
 		fmt.Fprintf(&out, "%x ", y[:4])
+		xpub := shared.xpriv.Public()
+		xss := shared.xpriv.DiffieHellman(&shared.xpeer)
+		fmt.Fprintf(&out, "%x %x ", xpub[:4], xss[:4])
 		var xa, xb [32]byte
 		copy(xb[:], seed)
 		x25519.ScalarBaseMult(&xa, &xb)
@@ -391,6 +396,26 @@ func main() {
 	sh.ssig, _ = sh.kp.Sign(zr{}, sh.ctx.NewTranscriptBytes([]byte("shared")))
 	sh.tr = merlin.NewTranscript("shared")
 	sh.xsk = bytes.Repeat([]byte{0x42}, 32)
+	copy(sh.xpriv[:], bytes.Repeat([]byte{0xff}, 32))
+	copy(sh.xpeer[:], x25519.Basepoint)
+	sharedInputs := func() string {
+		h := sha256.New()
+		h.Write(sh.sk)
+		h.Write(sh.pk)
+		h.Write(sh.sig)
+		h.Write(sh.xsk)
+		h.Write(sh.xpriv[:])
+		h.Write(sh.xpeer[:])
+		for i := range sh.keys {
+			h.Write(sh.keys[i][:])
+		}
+		b, _ := sh.P.MarshalBinary()
+		h.Write(b)
+		kb, _ := sh.kp.MarshalBinary()
+		h.Write(kb)
+		return fmt.Sprintf("%x", h.Sum(nil))
+	}
+	inputsBefore := sharedInputs()
 
 	before := globalDigest()
 	seq := work(0, sh, *rounds)
@@ -417,6 +442,10 @@ func main() {
 	}
 	if _, _, _, pr := cache.VerifLRUState(sh.lru); len(pr) > 0 {
 		fmt.Println("LRU-INVARIANT", pr)
+		bad++
+	}
+	if sharedInputs() != inputsBefore {
+		fmt.Println("SHARED-INPUT-MODIFIED a caller-owned key, signature or point was written to by a (read-only) API call")
 		bad++
 	}
 	if after := globalDigest(); after != before {
